@@ -494,6 +494,7 @@ var ruleC2 = &Rule{
 		"spread appends (`append(f, xs...)`) must spread a callback parameter or fastFillArray(len(<callback parameter>), …); fields assigned once per request are a frozen table",
 	Run: func(c *Ctx) []Obl {
 		var obls []Obl
+		batchFields := map[*types.Named][]string{} // parameter-object types whose fields are spread into rows
 		for _, fi := range c.Funcs(c.PkgsUnder("writer/utils/unmarshal")) {
 			if isTestFile(c, fi.Decl) {
 				continue
@@ -565,6 +566,11 @@ var ruleC2 = &Rule{
 								if id, ok := arg.(*ast.Ident); ok && params[info.Uses[id]] {
 									okSpread = true
 								}
+								// a field of a parameter object that carries the callback's arrays (checked as a whole below)
+								if bt, f := paramField(info, params, arg); bt != nil {
+									okSpread = true
+									batchFields[bt] = append(batchFields[bt], f)
+								}
 								if fc, ok := arg.(*ast.CallExpr); ok && len(fc.Args) == 2 {
 									if o := calleeObj(info, fc); o != nil && o.Name() == "fastFillArray" {
 										lenArg := ast.Unparen(fc.Args[0])
@@ -594,6 +600,25 @@ var ruleC2 = &Rule{
 											if lid, ok := lc.Fun.(*ast.Ident); ok && lid.Name == "len" && len(lc.Args) == 1 {
 												if pid, ok := ast.Unparen(lc.Args[0]).(*ast.Ident); ok && params[info.Uses[pid]] {
 													okSpread = true
+												}
+												if bt, f := paramField(info, params, lc.Args[0]); bt != nil {
+													okSpread = true
+													batchFields[bt] = append(batchFields[bt], f)
+												}
+											}
+											// p.count() where count is `return len(p.field)`
+											if se, ok := ast.Unparen(lc.Fun).(*ast.SelectorExpr); ok {
+												if rid, ok := ast.Unparen(se.X).(*ast.Ident); ok && params[info.Uses[rid]] {
+													if hfi, le := c.lenAccessor(info, lc); hfi != nil {
+														if fse, ok := ast.Unparen(le).(*ast.SelectorExpr); ok {
+															if sel, ok := hfi.Pkg.TypesInfo.Selections[fse]; ok && sel.Kind() == types.FieldVal {
+																if nt := namedOf(sel.Recv()); nt != nil {
+																	okSpread = true
+																	batchFields[nt] = append(batchFields[nt], fse.Sel.Name)
+																}
+															}
+														}
+													}
 												}
 											}
 										}
@@ -648,9 +673,119 @@ var ruleC2 = &Rule{
 			}
 			scan(fi.Decl.Body.List)
 		}
+		// parameter objects: their spread fields are set only where the object is built, each from its own parameter of the
+		// building function — so they are the callback's arrays, whose lengths rule C3 couples at the callback's call sites
+		var bts []*types.Named
+		for bt := range batchFields {
+			bts = append(bts, bt)
+		}
+		sort.Slice(bts, func(i, j int) bool { return bts[i].Obj().Name() < bts[j].Obj().Name() })
+		for _, bt := range bts {
+			fields := uniq(batchFields[bt])
+			sort.Strings(fields)
+			isSpread := map[string]bool{}
+			for _, f := range fields {
+				isSpread[f] = true
+			}
+			var bad []string
+			lits := 0
+			pos := bt.Obj().Pos()
+			for _, fi := range c.Funcs(c.PkgsUnder("writer/utils/unmarshal")) {
+				if isTestFile(c, fi.Decl) {
+					continue
+				}
+				info := fi.Pkg.TypesInfo
+				fparams := map[types.Object]bool{}
+				for _, f := range fi.Decl.Type.Params.List {
+					for _, n := range f.Names {
+						fparams[info.Defs[n]] = true
+					}
+				}
+				ast.Inspect(fi.Decl.Body, func(n ast.Node) bool {
+					switch x := n.(type) {
+					case *ast.AssignStmt:
+						for _, lh := range x.Lhs {
+							if se, ok := ast.Unparen(lh).(*ast.SelectorExpr); ok && isSpread[se.Sel.Name] {
+								if sel, ok := info.Selections[se]; ok && sel.Kind() == types.FieldVal && namedOf(sel.Recv()) == bt {
+									bad = append(bad, fmt.Sprintf("%s is assigned at %s", se.Sel.Name, c.pos(x.Pos())))
+								}
+							}
+						}
+					case *ast.CompositeLit:
+						tv, ok := info.Types[x]
+						if !ok || namedOf(tv.Type) != bt {
+							return true
+						}
+						lits++
+						used := map[types.Object]string{}
+						set := map[string]bool{}
+						for _, el := range x.Elts {
+							kv, ok := el.(*ast.KeyValueExpr)
+							if !ok {
+								bad = append(bad, "positional literal at "+c.pos(x.Pos()))
+								continue
+							}
+							kid, ok := kv.Key.(*ast.Ident)
+							if !ok || !isSpread[kid.Name] {
+								continue
+							}
+							set[kid.Name] = true
+							vid, ok := ast.Unparen(kv.Value).(*ast.Ident)
+							if !ok || !fparams[info.Uses[vid]] {
+								bad = append(bad, fmt.Sprintf("%s is not set from a parameter of %s", kid.Name, fi.Decl.Name.Name))
+								continue
+							}
+							if prev, dup := used[info.Uses[vid]]; dup {
+								bad = append(bad, fmt.Sprintf("%s and %s are set from the same parameter", prev, kid.Name))
+							}
+							used[info.Uses[vid]] = kid.Name
+						}
+						for _, f := range fields {
+							if !set[f] {
+								bad = append(bad, fmt.Sprintf("%s is not set in the literal at %s", f, c.pos(x.Pos())))
+							}
+						}
+					}
+					return true
+				})
+			}
+			key := fmt.Sprintf("writer/utils/unmarshal.%s fields %v are the callback's arrays", bt.Obj().Name(), fields)
+			switch {
+			case lits == 0:
+				obls = append(obls, Obl{Key: key, Pos: c.pos(pos), Status: Violation, Msg: "the object whose fields are spread into the rows is never built from a callback's parameters"})
+			case len(bad) > 0:
+				obls = append(obls, Obl{Key: key, Pos: c.pos(pos), Status: Violation, Msg: "the spread fields are not tied one-to-one to the callback's arrays: " + strings.Join(uniq(bad), "; ")})
+			default:
+				obls = append(obls, Obl{Key: key, Pos: c.pos(pos), Status: OK, Msg: fmt.Sprintf("%d construction site(s)", lits)})
+			}
+		}
 		sort.SliceStable(obls, func(i, j int) bool { return obls[i].Key < obls[j].Key })
 		return obls
 	},
+}
+
+// paramField: e is `p.f` with p a parameter whose type is a struct (or pointer to one) of the package: returns the struct type and f.
+func paramField(info *types.Info, params map[types.Object]bool, e ast.Expr) (*types.Named, string) {
+	se, ok := ast.Unparen(e).(*ast.SelectorExpr)
+	if !ok {
+		return nil, ""
+	}
+	id, ok := ast.Unparen(se.X).(*ast.Ident)
+	if !ok || !params[info.Uses[id]] {
+		return nil, ""
+	}
+	sel, ok := info.Selections[se]
+	if !ok || sel.Kind() != types.FieldVal {
+		return nil, ""
+	}
+	nt := namedOf(sel.Recv())
+	if nt == nil {
+		return nil, ""
+	}
+	if _, isStruct := nt.Underlying().(*types.Struct); !isStruct {
+		return nil, ""
+	}
+	return nt, se.Sel.Name
 }
 
 // ---------------------------------------------------------------------------------
@@ -773,7 +908,46 @@ func (l *lenClasses) lenDesc(n ast.Expr, depth int) string {
 	if tv, ok := info.Types[n]; ok && tv.Value != nil {
 		return "const:" + tv.Value.ExactString()
 	}
+	// a length accessor: a module function whose body is `return len(<field or parameter>)`
+	if call, ok := ast.Unparen(n).(*ast.CallExpr); ok && depth < 4 {
+		if hfi, le := l.c.lenAccessor(info, call); hfi != nil {
+			sub := &lenClasses{c: l.c, fi: hfi, pkgFs: l.pkgFs}
+			if se, ok := ast.Unparen(le).(*ast.SelectorExpr); ok {
+				if sel, ok := hfi.Pkg.TypesInfo.Selections[se]; ok && sel.Kind() == types.FieldVal {
+					return sub.signature(sel.Obj(), true)
+				}
+			}
+		}
+	}
 	return "n=" + l.c.normText(n)
+}
+
+// lenAccessor: call runs a module function whose only statement is `return len(X)`; returns the function and X.
+func (c *Ctx) lenAccessor(info *types.Info, call *ast.CallExpr) (*FuncInfo, ast.Expr) {
+	fn, ok := calleeObj(info, call).(*types.Func)
+	if !ok || !strings.HasPrefix(objPkgPath(fn), modPath) {
+		return nil, nil
+	}
+	p := c.ByPath[objPkgPath(fn)]
+	if p == nil {
+		return nil, nil
+	}
+	fd := c.declOf(p, fn)
+	if fd == nil || fd.Body == nil || len(fd.Body.List) != 1 {
+		return nil, nil
+	}
+	r, ok := fd.Body.List[0].(*ast.ReturnStmt)
+	if !ok || len(r.Results) != 1 {
+		return nil, nil
+	}
+	lc, ok := ast.Unparen(r.Results[0]).(*ast.CallExpr)
+	if !ok || len(lc.Args) != 1 {
+		return nil, nil
+	}
+	if id, ok := lc.Fun.(*ast.Ident); !ok || id.Name != "len" {
+		return nil, nil
+	}
+	return &FuncInfo{Pkg: p, Decl: fd}, lc.Args[0]
 }
 
 // classOf: canonical description of the length of a slice-valued expression.
